@@ -58,3 +58,23 @@ M("c01-const-2", "C01", [("melody", "    if np.sum(ref_indicator) == 0:\n       
 M("c01-silent-fmeasure-or", "C01", [("util", "    if precision == 0 and recall == 0:", "    if precision == 0 or recall == 0:")], expect="silent")
 M("c01-silent-guard-len", "C01", [("beat", "    if estimated_beats.size == 0 or reference_beats.size == 0:\n        return 0.0\n    # Compute the best-case", "    if len(estimated_beats) == 0 or len(reference_beats) == 0:\n        return 0.0\n    # Compute the best-case")], expect="silent")
 M("c01-silent-np-sum", "C01", [("melody", "np.sum(est_voicing * ref_indicator) / np.sum(ref_indicator)", "(est_voicing * ref_indicator).sum() / ref_indicator.sum()", 0)], expect="silent")
+
+# ------------------------------------------------------------------ C10
+M("c10-re-dollar", "C10", [("chord", '([1-9]|1[0-3]?)))?)?))\\Z"""', '([1-9]|1[0-3]?)))?)?))$"""')], rule="C10.GRAMMAR")
+M("c10-re-extra-shorthand", "C10", [("chord", "|maj13|min13)", "|maj13|min13|sus)")], rule="C10.GRAMMAR")
+M("c10-re-degree-14", "C10", [("chord", "(/((b*|#*)([1-9]|1[0-3]?)))?", "(/((b*|#*)([1-9]|1[0-4]?)))?")], rule="C10.GRAMMAR")
+M("c10-re-double-colon", "C10", [("chord", "^((N|X)|(([A-G](b*|#*))((:(maj|", "^((N|X)|(([A-G](b*|#*))((:+(maj|")], rule="C10.GRAMMAR")
+M("c10-re-root-lower", "C10", [("chord", "^((N|X)|(([A-G](b*|#*))", "^((N|X)|(([A-Ga-g](b*|#*))")], rule="C10.GRAMMAR")
+M("c10-quality-bit", "C10", [("chord", '"min7": [1, 0, 0, 1, 0, 0, 0, 1, 0, 0, 1, 0],', '"min7": [1, 0, 0, 1, 0, 0, 0, 1, 0, 0, 0, 1],')], rule="C10.TABLES")
+M("c10-redux-base", "C10", [("chord", '"min9": ("min7", set(["9"])),', '"min9": ("min", set(["9"])),')], rule="C10.TABLES")
+M("c10-scale-degree", "C10", [("chord", "semitones = [0, 2, 4, 5, 7, 9, 11, 12, 14, 16, 17, 19, 21]", "semitones = [0, 2, 4, 5, 7, 9, 11, 12, 14, 15, 17, 19, 21]")], rule="C10.TABLES")
+M("c10-raise-valueerror", "C10", [("chord", "        raise InvalidChordException(\n            \"Scale degree improperly formed", "        raise ValueError(\n            \"Scale degree improperly formed")], rule="C10.EXC")
+M("c10-quality-unguarded", "C10", [("chord", "    if quality not in QUALITIES:\n        raise InvalidChordException(\n            \"Unsupported chord quality shorthand: '%s' \"\n            \"Did you mean to reduce extended chords?\" % quality\n        )\n", "")], rule="C10.EXC")
+M("c10-root-nomod", "C10", [("chord", "    return semitone % 12\n", "    return semitone\n")], rule="C10.ENCODEPOST")
+M("c10-bass-bit-dropped", "C10", [("chord", "    else:\n        semitone_bitmap[bass_number] = 1\n    return root_number", "    return root_number")], rule="C10.ENCODEPOST")
+M("c10-not-binarised", "C10", [("chord", "    semitone_bitmap = (semitone_bitmap > 0).astype(np.int64)\n", "")], rule="C10.ENCODEPOST")
+M("c10-x-sentinel", "C10", [("chord", "X_CHORD_ENCODED = -1, np.array([-1] * BITMAP_LENGTH), -1", "X_CHORD_ENCODED = -1, np.array([0] * BITMAP_LENGTH), -1")], rule="C10.TABLES")
+M("c10-join-novalidate", "C10", [("chord", "    validate_chord_label(chord_label)\n    return chord_label\n", "    return chord_label\n")], rule="C10.SPLITSAFE")
+M("c10-split-novalidate", "C10", [("chord", "    chord_label = str(chord_label)\n    validate_chord_label(chord_label)\n", "    chord_label = str(chord_label)\n")], rule="C10.SPLITSAFE")
+M("c10-silent-re-reorder", "C10", [("chord", "(maj|min|dim|aug|1|5|sus2|sus4|", "(min|maj|aug|dim|5|1|sus4|sus2|")], expect="silent")
+M("c10-silent-re-degree-form", "C10", [("chord", "(/((b*|#*)([1-9]|1[0-3]?)))?", "(/((b*|#*)(1[0-3]|[1-9])))?")], expect="silent")
